@@ -57,6 +57,10 @@ OP = st.one_of(
     st.tuples(st.just("rem@"), st.integers(0, 3)), st.tuples(st.just("rem@"), st.integers(0, 3)),
     st.tuples(st.just("get@"), st.integers(0, 3)), st.tuples(st.just("get@"), st.integers(0, 3)),
     st.tuples(st.just("seti@"), st.integers(0, 3)), st.tuples(st.just("del@"), st.integers(0, 3)),
+    # ops addressed to the i-th name of the "declare on first use" set (ignored when the case has none)
+    st.tuples(st.just("get%"), st.integers(0, 5)), st.tuples(st.just("seti%"), st.integers(0, 5)),
+    st.tuples(st.just("sets%"), st.integers(0, 5)), st.tuples(st.just("del%"), st.integers(0, 5)),
+    st.tuples(st.just("rem%"), st.integers(0, 5)),
     # shadow/unshadow cycle on one name: add an instance trait, use it, remove it, use the name again
     st.tuples(st.just("cycle"), st.sampled_from(NAMES), st.sampled_from(KINDS),
               st.lists(st.sampled_from(["get", "seti", "sets", "del"]), max_size=2),
@@ -74,6 +78,10 @@ def strategy(tier):
         "mixin": st.one_of(st.none(), st.none(), LEVEL_ST),
         "leaf_body": st.booleans(),
         "ops": st.lists(OP, min_size=1, max_size=25),
+        # "declare on first use": a trait_added listener of the object adds an INSTANCE trait for these names the moment
+        # the class resolves them for the first time (through a wildcard or the class default); that instance trait must
+        # govern the very access that triggered the resolution
+        "declare": st.one_of(st.just({}), st.just({}), st.dictionaries(st.sampled_from(NAMES), st.sampled_from(KINDS), min_size=1, max_size=6)),
     })
 
 
@@ -220,6 +228,17 @@ def run(case, ctx):
             cls = type("Leaf", (cls, Mixin), ns)
         ctx.label("mixin")
     res = Resolver(base, levels, mixin)
+    declare = dict(case.get("declare") or {})
+    if declare:
+        def _trait_added_changed(self, name):
+            if name in declare and name not in self._instance_traits():
+                self.add_trait(name, mk(declare[name]))
+        cls = type("Declaring", (cls,), {"_trait_added_changed": _trait_added_changed})
+        ctx.label("declare-on-first-use")
+    explicit = set()
+    for ex, wc in levels + ([mixin] if mixin else []):
+        explicit.update(ex)
+    cached = set()           # names the class has already resolved through a wildcard / its default (it caches the result)
     o = cls()
     inst = {}
     m = Model()
@@ -236,6 +255,10 @@ def run(case, ctx):
             flat.append(op)
     for op in flat:
         k, name = op[0], op[1]
+        if k.endswith("%"):
+            if not declare:
+                continue
+            k, name = k[:-1], sorted(declare)[op[1] % len(declare)]
         if k.endswith("@"):
             if not touched:
                 continue
@@ -275,6 +298,15 @@ def run(case, ctx):
             ctx.label("instance-trait-removed")
             interesting = True
             continue
+        if name not in inst and name not in explicit and name not in cached:
+            # first resolution of this name by the class: `trait_added` fires, the listener may declare an instance trait
+            cached.add(name)
+            if name in declare:
+                inst[name] = declare[name]
+                if name not in touched:
+                    touched.append(name)
+                interesting = True
+                ctx.label("declared-during-first-resolution")
         kind, src = res.resolve(inst, name)
         ctx.label("governed-by:" + src)
         if src in ("prefix-multi", "mixin"):
